@@ -186,6 +186,45 @@ pub fn rand_shape(rng: &mut Rng, cfg: &RawCfg, slot: P) -> (Shape, &'static str)
     }
 }
 
+/// See the call site: a 1- or 2-unit-thick rectangle right next to `shape` without touching it.
+fn thin_neighbour(rng: &mut Rng, shape: &Shape) -> Option<Shape> {
+    let t = rng.range(1, 2) as isize;
+    let high = rng.bool();
+    match shape {
+        Shape::Path(p) if p.points.len() == 2 => {
+            let (a, b) = (&p.points[0], &p.points[1]);
+            let d = (p.width / 2) as isize + 1;
+            if a.y == b.y && a.x != b.x {
+                let (x0, x1) = (a.x.min(b.x), a.x.max(b.x));
+                let (y0, y1) = if high { (a.y + d, a.y + d + t) } else { (a.y - d - t, a.y - d) };
+                Some(Shape::Rect(Rect { p0: Point::new(x0, y0), p1: Point::new(x1, y1) }))
+            } else if a.x == b.x && a.y != b.y {
+                let (y0, y1) = (a.y.min(b.y), a.y.max(b.y));
+                let (x0, x1) = if high { (a.x + d, a.x + d + t) } else { (a.x - d - t, a.x - d) };
+                Some(Shape::Rect(Rect { p0: Point::new(x0, y0), p1: Point::new(x1, y1) }))
+            } else {
+                None
+            }
+        }
+        Shape::Path(_) => None,
+        Shape::Rect(_) | Shape::Polygon(_) => {
+            let pts: Vec<&Point> = match shape {
+                Shape::Rect(r) => vec![&r.p0, &r.p1],
+                Shape::Polygon(p) => p.points.iter().collect(),
+                _ => unreachable!(),
+            };
+            let (x0, x1) = (pts.iter().map(|p| p.x).min()?, pts.iter().map(|p| p.x).max()?);
+            let (y0, y1) = (pts.iter().map(|p| p.y).min()?, pts.iter().map(|p| p.y).max()?);
+            Some(Shape::Rect(match (rng.bool(), high) {
+                (true, true) => Rect { p0: Point::new(x0, y1 + 1), p1: Point::new(x1, y1 + 1 + t) },
+                (true, false) => Rect { p0: Point::new(x0, y0 - 1 - t), p1: Point::new(x1, y0 - 1) },
+                (false, true) => Rect { p0: Point::new(x1 + 1, y0), p1: Point::new(x1 + 1 + t, y1) },
+                (false, false) => Rect { p0: Point::new(x0 - 1 - t, y0), p1: Point::new(x0 - 1, y1) },
+            }))
+        }
+    }
+}
+
 pub struct GenRaw {
     pub lib: Library,
     pub defs: LayerDefs,
@@ -220,7 +259,13 @@ pub fn rand_raw_lib(rng: &mut Rng, cfg: &RawCfg) -> GenRaw {
                     }
                 }
                 let net = if cfg.nets && rng.chance(1, 2) { Some(format!("{}{}_{}", rng.pick(&["net", "VDD", "Clk", "a"]), i, k)) } else { None };
-                lay.elems.push(Element { net, layer: key, purpose, inner });
+                // a thin named neighbour on the same layer/purpose, not touching the shape: one unit clear of a rectangle's or polygon's
+                // bounding box, and the closest integer line beyond a single-segment path's edge (half a unit clear for odd widths)
+                let neighbour = if cfg.nets && rng.chance(1, 3) { thin_neighbour(rng, &inner) } else { None };
+                lay.elems.push(Element { net, layer: key, purpose: purpose.clone(), inner });
+                if let Some(nb) = neighbour {
+                    lay.elems.push(Element { net: Some(format!("nbr{}_{}", i, k)), layer: key, purpose, inner: nb });
+                }
             }
             if i > 0 {
                 for k in 0..rng.usize(4) {
